@@ -88,9 +88,12 @@ Definition datetime_line (pi : list string -> list string) (t : table_def) : lis
   | l => ["from datetime import " +++ join ", " l]
   end.
 
-(* the "from sqlalchemy import ..." line (206-208): iterated, then sorted *)
-Definition sa_line (pi : list string -> list string) (t : table_def) : string :=
-  "from sqlalchemy import " +++ join ", " (sort_str (hs_iter pi (sa_inserts t))).
+(* the "from sqlalchemy import ..." line (206-213): iterated, then sorted; omitted when nothing is imported (fix 661b98e) *)
+Definition sa_line (pi : list string -> list string) (t : table_def) : list string :=
+  match sort_str (hs_iter pi (sa_inserts t)) with
+  | [] => []
+  | l => ["from sqlalchemy import " +++ join ", " l]
+  end.
 
 Definition opt_line (b : bool) (s : string) : list string := if b then [s] else [].
 
@@ -102,15 +105,47 @@ Definition sqlalchemy_imports (pi_sa pi_dt : list string -> list string) (t : ta
   ++ opt_line (needs_decimal t) "from decimal import Decimal"
   ++ opt_line (needs_optional t) "from typing import Optional"
   ++ opt_line (needs_uuid t) "from uuid import UUID"
-  ++ [sa_line pi_sa t]
+  ++ sa_line pi_sa t
   ++ ["from sqlalchemy.orm import DeclarativeBase, Mapped, mapped_column"].
 
-(* ---------- SQLModel (sqlmodel/mod.rs:78-155) ---------- *)
+(* ---------- SQLModel (sqlmodel/mod.rs:78-156) ---------- *)
+(* str::parse::<f64>() succeeds: [sign] (inf | infinity | nan | digits [. digits] [e [sign] digits]), case-insensitive;
+   at least one digit in the mantissa *)
+Definition digit_byte (a : ascii) : bool := let n := N_of_ascii a in (N.leb 48 n && N.leb n 57)%bool.
+Fixpoint all_digits (s : string) : bool :=
+  match s with EmptyString => true | String a r => (digit_byte a && all_digits r)%bool end.
+Definition nonempty_digits (s : string) : bool := (negb (String.eqb s "") && all_digits s)%bool.
+Definition strip_sign (s : string) : string :=
+  match s with String a r => if (Ascii.eqb a "+" || Ascii.eqb a "-")%bool then r else s | _ => s end.
+Definition looks_f64 (s : string) : bool :=
+  let l := map_string to_lower_ascii_char (strip_sign s) in
+  if (String.eqb l "inf" || String.eqb l "infinity" || String.eqb l "nan")%bool then true
+  else
+    let (mant, expo) := match split_on "e"%char l with
+                        | [m] => (m, None)
+                        | [m; e] => (m, Some e)
+                        | _ => ("", Some "x")
+                        end in
+    let mant_ok := match split_on "."%char mant with
+                   | [i] => nonempty_digits i
+                   | [i; f] => (all_digits i && all_digits f && negb (String.eqb i "" && String.eqb f ""))%bool
+                   | _ => false
+                   end in
+    let exp_ok := match expo with None => true | Some e => nonempty_digits (strip_sign e) end in
+    (mant_ok && exp_ok)%bool.
+
+(* default_uses_text (361-371, fix e0ae11e) = the branches of render_column (374-402) that emit text("...") *)
+Definition default_uses_text (s : string) : bool :=
+  if contains_char "("%char s then true
+  else negb (String.eqb s "true" || String.eqb s "false" || starts_with "'" s || starts_with """" s || looks_f64 s)%bool.
+Definition sqlmodel_needs_text (t : table_def) : bool :=
+  existsb (fun c => match c_default c with Some d => default_uses_text (default_to_sql d) | None => false end) (t_columns t).
+
 (* sa_imports here is a Vec pushed in a fixed order: no hash container *)
 Definition sqlmodel_sa_line (t : table_def) : list string :=
   match (if existsb is_composite_index (t_constraints t) then ["Index"] else [])
         ++ (if existsb is_composite_unique (t_constraints t) then ["UniqueConstraint"] else [])
-        ++ (if has_server_default t then ["text"] else []) with
+        ++ (if sqlmodel_needs_text t then ["text"] else []) with
   | [] => []
   | l => ["from sqlalchemy import " +++ join ", " l]
   end.
